@@ -21,6 +21,41 @@ def notSigned (vt : Option VT) (ifNone : Bool) : Bool :=
   | some v => v.sign != .signed
   | none => ifNone
 
+/-- checkcondition.cpp:2023-2074: the verdict from the constant `kiv` (`i = 0`: it is the first operand, `num cmp var`;
+    `i = 1`: the second) and the value interval `[typeMin, typeMax]` computed for the other operand -/
+def rangeVerdict (op : BinOp) (i : Nat) (kiv typeMin typeMax : Int) : Option Bool :=
+  if kiv == 0 then none
+  else
+    let result : Bool :=
+      match op with
+      | .eq => false
+      | .ne => true
+      | .gt | .ge => if i == 0 then decide (kiv > 0) else decide (kiv < 0)
+      | .lt | .le => if i == 0 then decide (kiv < 0) else decide (kiv > 0)
+      | _ => false
+    if kiv < typeMin || kiv > typeMax then some result
+    else if i == 0 then
+      if kiv == typeMin then (if op == .le then some true else if op == .gt then some result else none)
+      else if kiv == typeMax && (op == .ge || op == .lt) then some result
+      else none
+    else
+      if kiv == typeMin then (if op == .ge then some true else if op == .lt then some result else none)
+      else if kiv == typeMax && (op == .le || op == .gt) then some result
+      else none
+
+/-- checkcondition.cpp:2013-2021 -/
+def typeInterval (tvt : VT) (valueVt : Option VT) : Option (Int × Int) :=
+  let bits := typeBits tvt.type
+  if bits == 0 || bits ≥ 63 then none
+  else
+    let typeMin : Int := if tvt.sign == .unsigned then 0 else -(2 ^ (bits - 1))
+    let umax : Int := 2 ^ bits - 1
+    let typeMax : Int :=
+      if tvt.sign != .signed then umax
+      else if bits ≥ 32 && notSigned valueVt true then umax
+      else umax / 2
+    some (typeMin, typeMax)
+
 /-- verdict for one side: `i = 0`: `valueTok` is the first operand (`num cmp var`), `i = 1`: the second.
     `some b` = "Condition is always b" -/
 def outOfRange (op : BinOp) (i : Nat) (valueTok typeTok : Expr) : Option Bool :=
@@ -29,33 +64,9 @@ def outOfRange (op : BinOp) (i : Nat) (valueTok typeTok : Expr) : Option Bool :=
     if kiv < 0 && notSigned valueTok.ann.vt false then none
     else if typeTok.isLit then none
     else
-      let bits := typeBits tvt.type
-      if bits == 0 || bits ≥ 63 then none
-      else
-        let typeMin : Int := if tvt.sign == .unsigned then 0 else -(2 ^ (bits - 1))
-        let umax : Int := 2 ^ bits - 1
-        let typeMax : Int :=
-          if tvt.sign != .signed then umax
-          else if bits ≥ 32 && notSigned valueTok.ann.vt true then umax
-          else umax / 2
-        if kiv == 0 then none
-        else
-          let result : Bool :=
-            match op with
-            | .eq => false
-            | .ne => true
-            | .gt | .ge => if i == 0 then decide (kiv > 0) else decide (kiv < 0)
-            | .lt | .le => if i == 0 then decide (kiv < 0) else decide (kiv > 0)
-            | _ => false
-          if kiv < typeMin || kiv > typeMax then some result
-          else if i == 0 then
-            if kiv == typeMin then (if op == .le then some true else if op == .gt then some result else none)
-            else if kiv == typeMax && (op == .ge || op == .lt) then some result
-            else none
-          else
-            if kiv == typeMin then (if op == .ge then some true else if op == .lt then some result else none)
-            else if kiv == typeMax && (op == .le || op == .gt) then some result
-            else none
+      match typeInterval tvt valueTok.ann.vt with
+      | none => none
+      | some (typeMin, typeMax) => rangeVerdict op i kiv typeMin typeMax
   | _, _ => none
 
 def boolWord (b : Bool) : String := if b then "true" else "false"
